@@ -503,6 +503,13 @@ fn faults_for(mode: Mode, tier: Tier, seed: u64, img: &ImageInfo) -> Vec<Fault> 
                         ls.push(span.start + d);
                     }
                 }
+                // every page boundary of the file, and the bytes around the end of each pack's
+                // last checksummed table (its block CRC sits right before the check block)
+                ls.extend((0..len).step_by(4096));
+                for span in &img.spans[fi] {
+                    let e = span.start + span.check_info_pos;
+                    ls.extend(e.saturating_sub(12)..e + 4);
+                }
                 ls.retain(|l| *l < len);
                 ls.sort();
                 ls.dedup();
